@@ -353,7 +353,7 @@ func runAnswerCase(n int, vec []int, lc lifecycle) (viol []string, sig string, s
 
 // ---- engine cuts --------------------------------------------------------
 
-const reqTimeout = 150 * time.Millisecond
+const reqTimeout = 400 * time.Millisecond
 
 type cutCase struct {
 	Call   string `json:"call"`
@@ -469,7 +469,14 @@ func findCall(name string) lifecycle {
 
 // measure returns the number of bytes of the request (runtime->victim) and of the response.
 func measure(c cutCase) (int64, int64, error) {
-	e, err := newCutEnv(c, nil)
+	var e *cutEnv
+	var err error
+	for try := 0; try < 4; try++ { // setting the environment up can fail under heavy load (timeouts)
+		if e, err = newCutEnv(c, nil); err == nil {
+			break
+		}
+		time.Sleep(300 * time.Millisecond)
+	}
 	if err != nil {
 		return 0, 0, err
 	}
@@ -716,8 +723,9 @@ func engineCuts(f *rep.Flags, res *rep.Result) {
 	var mu sync.Mutex
 	var wg sync.WaitGroup
 	skipped := 0
+	var suspects []cutCase
 	jobs := make(chan cutCase, 64)
-	for w := 0; w < 12; w++ {
+	for w := 0; w < 8; w++ {
 		wg.Add(1)
 		go func() {
 			defer wg.Done()
@@ -729,17 +737,12 @@ func engineCuts(f *rep.Flags, res *rep.Result) {
 					continue // enough evidence of stalls; every further one costs the full horizon
 				}
 				v, sig := runCutCase(c)
-				if len(v) > 0 && sig != "C07|machinery" {
-					// believe a violation only if it reproduces
-					v2, sig2 := runCutCase(c)
-					if len(v2) == 0 {
-						mu.Lock()
-						res.Notes = append(res.Notes, "not reproduced on re-execution (timing): "+c.String()+": "+v[0])
-						mu.Unlock()
-						v, sig = nil, ""
-					} else {
-						v, sig = v2, sig2
-					}
+				if len(v) > 0 {
+					// not believed yet: confirmed sequentially, without the load of the parallel phase
+					mu.Lock()
+					suspects = append(suspects, c)
+					mu.Unlock()
+					v, sig = nil, ""
 				}
 				mu.Lock()
 				res.Evaluations++
@@ -760,6 +763,30 @@ func engineCuts(f *rep.Flags, res *rep.Result) {
 	}
 	close(jobs)
 	wg.Wait()
+	// confirmation pass: a suspect must fail three times in a row, alone, to be believed
+	for _, c := range suspects {
+		var v []string
+		var sig string
+		fails := 0
+		for try := 0; try < 3; try++ {
+			v, sig = runCutCase(c)
+			if len(v) == 0 {
+				break
+			}
+			fails++
+			time.Sleep(200 * time.Millisecond)
+		}
+		if fails < 3 {
+			res.Notes = append(res.Notes, "not reproduced when re-executed alone (load/timing): "+c.String())
+			continue
+		}
+		if sig == "C07|machinery" {
+			res.Exhaustive = false
+			res.Notes = append(res.Notes, "case skipped, its environment could not be set up: "+c.String()+": "+v[0])
+			continue
+		}
+		res.Add(sig, strings.Join(v, "\n  ")+"\n  case: "+c.String(), map[string]any{"engine": "cuts", "case": c})
+	}
 	res.Bounds["cases"] = len(cases)
 	if skipped > 0 {
 		res.Exhaustive = false
